@@ -479,6 +479,8 @@ class Conformance(UperBase):
             return "uper.len_ub_ge_64k"
         if any(int_semi(nd) for nd in nodes):
             return "uper.int_semi"
+        if any(nd[0] == "int" and nd[3] == "1" and (opt(nd[1]) is None or opt(nd[2]) is None) for nd in nodes):
+            return "uper.int_ext_open_root"
         return None
 
 
